@@ -595,6 +595,10 @@ def c08(obs):
             if k.startswith('c1'):
                 want_n = {i: n for i, n in enumerate(M.get('names', []))}
                 if names != want_n: v.append(('C08', '%s: declared names %r differ from the map\'s %r' % (k, names, want_n)))
+    if not direct:
+        # through an enclosing source: the stream an outside caller gets and map() must agree everywhere (the C03 relation),
+        # so that nothing of the SourceMapSource's map leaks beyond its text
+        v += [('C08', 'through the enclosing source: ' + msg) for (_, msg) in c03(obs)]
     # through map() of the enclosing source (or of the SourceMapSource itself)
     mp = obs['maps'].get('c1', 'absent')
     if mp != 'absent':
